@@ -106,4 +106,52 @@ def lutLookup16 (lut : Array Int) (value : Int) : Int :=
   let delta := (slope * offset + 64) >>> 7
   cast16 (base + delta)
 
+/-- TFLite `gen_lut(func, min, max, table, 513)` (`kernels/internal/common.h`), evaluated in double precision:
+    sample value corrected by half the interpolation error at the midpoint of each interval -/
+def genLut (f : Float → Float) (mn mx : Float) : Array Int := Id.run do
+  let num := 513
+  let step := (mx - mn) / Float.ofNat (num - 1)
+  let halfStep := step / 2.0
+  let r := fun (x : Float) => Float.round x
+  let sat := fun (x : Float) => (if x < -32768.0 then -32768.0 else if x > 32767.0 then 32767.0 else x).toInt64.toInt
+  let mut t : Array Int := Array.mkEmpty num
+  for i in [0:num - 1] do
+    let x := mn + Float.ofNat i * step
+    let sampleVal := r (f x * 32768.0)
+    let midInterp := r ((f (mn + Float.ofNat (i + 1) * step) * 32768.0 + r (f x * 32768.0)) / 2.0)
+    let midVal := r (f (x + halfStep) * 32768.0)
+    let bias := r ((midInterp - midVal) / 2.0)
+    t := t.push (sat (sampleVal - bias))
+  return t.push (sat (r (f mx * 32768.0)))
+
+def expLut16 : Array Int := genLut Float.exp (-10.0) 0.0
+def oneOverOnePlusXLut16 : Array Int := genLut (fun v => 1.0 / (1.0 + v)) 0.0 1.0
+
+/-- one row of `SoftmaxInt16` -/
+def softmaxRow16 (expLut ooLut : Array Int) (xs : List Int) (mult : Int) (shift : Int) : List Int :=
+  match xs with
+  | [] => []
+  | x0 :: rest =>
+    let mx := rest.foldl max x0
+    let exps := xs.map fun x =>
+      let scaledDiff := mbqm (x - mx) mult shift
+      lutLookup16 expLut (clamp (scaledDiff + 32767) (-32768) 32767)
+    let sum := exps.foldl (· + ·) 0                     -- Q16.15, int32
+    let hp1 := clz32 sum
+    let shiftedSum := (sum * 2 ^ (hp1 - 1) + 2 ^ 13) >>> 14
+    let sym := shiftedSum - (2 ^ 15 + 2 ^ 16)
+    let recip := lutLookup16 ooLut (clamp sym (-32768) 32767)
+    let rightShift := 31 - hp1
+    exps.map fun e => clamp ((e * recip + 2 ^ (rightShift - 1)) >>> rightShift) 0 32767
+
+/-- `input->params.scale * params->beta / (10.0 / 65535.0)`: the product of the two `float`s is a `float`, the
+    quotient by the `double` constant a `double`; then `QuantizeMultiplier` -/
+def softmaxParams16 (betaBits scaleBits : Nat) : Option (Int × Int) := do
+  let (mb, eb) ← f32Decode betaBits
+  let (ms, es) ← f32Decode scaleBits
+  let (mp, ep) ← roundTo 24 (mb * ms) 1 (eb + es)
+  let (mc, ec) ← roundTo 53 10 65535 0
+  let (m, e) ← roundTo 53 mp mc (ep - ec)
+  some (quantizeMultiplierOf 53 m e)
+
 end VelaVerif.SoftmaxRef
